@@ -255,6 +255,24 @@ impl Engine for Pfx07 {
                 // a maximal segment, occasionally all 0xff
                 let byte = if rng.chance(1, 2) { 0xff } else { *rng.pick(&[0u8, b'x', 0xfe]) };
                 vec![Seg::Repeat { byte, len: 65535 }]
+            } else if i > 0 && rng.chance(1, 5) {
+                // the same bytes as an earlier view, cut into as many segments at other places ([fo, obar] / [foo, bar])
+                let src = views[rng.usize(i)].clone();
+                let all: Vec<u8> = src.iter().flat_map(|s| s.bytes()).collect();
+                if src.len() >= 2 && all.len() >= src.len() && all.len() < 64 {
+                    let mut cuts: Vec<usize> = (0..src.len() - 1).map(|_| rng.usize(all.len() + 1)).collect();
+                    cuts.sort();
+                    let mut p = vec![];
+                    let mut from = 0;
+                    for c in cuts {
+                        p.push(Seg::Bytes(all[from..c].to_vec()));
+                        from = c;
+                    }
+                    p.push(Seg::Bytes(all[from..].to_vec()));
+                    p
+                } else {
+                    vec![Seg::Bytes(b"fo".to_vec()), Seg::Bytes(b"obar".to_vec())]
+                }
             } else if i > 0 && rng.chance(1, 3) {
                 // an extension of an earlier view
                 let mut p = views[rng.usize(i)].clone();
@@ -264,8 +282,12 @@ impl Engine for Pfx07 {
                 p.push(rng.pick(&pool).clone());
                 p
             } else {
-                let n = 1 + rng.usize(3);
-                (0..n).map(|_| rng.pick(&pool).clone()).collect()
+                if rng.chance(1, 12) {
+                    vec![Seg::Bytes(b"foo".to_vec()), Seg::Bytes(b"bar".to_vec())]
+                } else {
+                    let n = 1 + rng.usize(3);
+                    (0..n).map(|_| rng.pick(&pool).clone()).collect()
+                }
             };
             views.push(path);
         }
